@@ -66,3 +66,79 @@ Theorem C05_model_frames_are_conformant_and_truthful : forall cfg d p dictID pbs
             Forall (fun b => bt_rsize b <= blockMax) (ft_blocks t).
 Proof. exact lz_model_conformant. Qed.
 Print Assumptions C05_model_frames_are_conformant_and_truthful.
+
+(* ---- round 2: the window rule follows from the compressor's window mechanism (coq/Codec/C05Window.v).
+        The three functions every match finder relies on - ZSTD_checkDictValidity, ZSTD_window_enforceMaxDist,
+        ZSTD_getLowestMatchIndex - are the models of coq/Index/Window.v (U32 arithmetic written out; tied to the real
+        static functions by property C15's unit harness).  [block_prepare] is the window part of one iteration of the
+        block loop of ZSTD_compress_frameChunk. ---- *)
+From ZV.Index Require Window.
+From ZV.Codec Require C05Window.
+
+Section C05_round2.
+Import ZV.Index.Window ZV.Codec.C05Window.
+Local Open Scope Z_scope.
+
+(* one block: for EVERY window state, loadedDictEnd (0, or the index s where the frame's content starts), block
+   position and size below the 32-bit index limit and windowLog 10..31 - including the states in which the U32 sum
+   loadedDictEnd + maxDist wraps - any index m that a match finder may take at position curr of the block
+   (getLowestMatchIndex <= m < curr) gives an offset curr - m that obeys the format's rule with curr - s bytes decoded:
+   offsets into the frame are <= Window_Size, offsets past the start of the frame (into the dictionary) occur only while
+   at most Window_Size bytes are decoded.  The state handed to the next block satisfies the same assumptions. *)
+Theorem C05_block_offsets_obey_window_rule : forall w lde s ip bs wl,
+  10 <= wl <= 31 ->
+  let maxDist := u32 (Z.shiftl 1 wl) in
+  let i0 := ip - base w in
+  seg_ok w lde s i0 -> 0 <= bs -> i0 + bs < two32 ->
+  let '(w3, lde3) := block_prepare w lde ip bs maxDist in
+  maxDist = 2 ^ wl /\
+  base w3 = base w /\ seg_ok w3 lde3 s (i0 + bs) /\ lowLimit w <= lowLimit w3 <= i0 /\
+  (lde3 <> 0 -> i0 + bs <= s + maxDist) /\
+  forall curr m, i0 <= curr < i0 + bs ->
+    getLowestMatchIndex w3 lde3 curr wl <= m < curr ->
+    window_rule maxDist (curr - s) (curr - m).
+Proof. exact block_prepare_sound. Qed.
+Print Assumptions C05_block_offsets_obey_window_rule.
+
+(* every block of a frame segment, for every list of block sizes *)
+Theorem C05_frame_offsets_obey_window_rule : forall wl s, 10 <= wl <= 31 ->
+  forall blocks w lde ip,
+  seg_ok w lde s (ip - base w) ->
+  Forall (fun bs => 0 <= bs) blocks ->
+  ip - base w + fold_right Z.add 0 blocks < two32 ->
+  Forall (block_rule s wl) (blocks_prepare w lde ip (u32 (Z.shiftl 1 wl)) blocks).
+Proof. exact blocks_prepare_sound. Qed.
+Print Assumptions C05_frame_offsets_obey_window_rule.
+
+(* the long-distance matcher enforces the distance from the END of each chunk with its own loadedDictEnd and takes
+   candidates >= lowLimit: same rule *)
+Theorem C05_ldm_offsets_obey_window_rule : forall w lde s chunkStart n wl,
+  10 <= wl <= 31 ->
+  let maxDist := u32 (Z.shiftl 1 wl) in
+  let i0 := chunkStart - base w in
+  seg_ok w lde s i0 -> 0 <= n -> i0 + n < two32 -> lde + maxDist < two32 ->
+  let '(w3, lde3, _) := window_enforceMaxDist w (chunkStart + n) maxDist (Some lde) None in
+  base w3 = base w /\ lowLimit w <= lowLimit w3 /\
+  forall curr m, i0 <= curr < i0 + n -> lowLimit w3 <= m < curr ->
+    window_rule maxDist (curr - s) (curr - m).
+Proof. exact ldm_chunk_sound. Qed.
+Print Assumptions C05_ldm_offsets_obey_window_rule.
+
+(* [window_rule] is exactly the window clause of the strict offset test of the reference decoder *)
+Theorem C05_window_rule_is_the_decoders_test :
+  (forall window x off, offset_ok true window x off =
+     ((1 <=? off)%N && ((off <=? x_avail x)%N && window_clause window (x_pos x) off))) /\
+  (forall maxDist pos off, 0 <= maxDist -> 0 <= pos -> 0 <= off ->
+     window_rule maxDist pos off -> window_clause (Z.to_N maxDist) (Z.to_N pos) (Z.to_N off) = true).
+Proof. split; [exact offset_ok_clause|exact window_rule_clause]. Qed.
+Print Assumptions C05_window_rule_is_the_decoders_test.
+
+(* the assumptions are satisfiable: dictionary of 1000 bytes in the external segment, content from index 1002,
+   windowLog 10, blocks of 1024, 1024 and 500 bytes: valid, then dropped, then the window slides *)
+Example C05_window_example :
+  let w := mkWindow 5002 4000 0 1002 2 0 in
+  seg_ok w 1002 1002 (5002 - base w) /\
+  map (fun e => let '(w3, lde3, _, _) := e in (lowLimit w3, lde3)) (blocks_prepare w 1002 5002 (u32 (Z.shiftl 1 10)) [1024; 1024; 500])
+  = [(2, 1002); (1002, 0); (2026, 0)].
+Proof. exact blocks_prepare_example. Qed.
+End C05_round2.
